@@ -46,10 +46,10 @@ class TiedEmb(nn.Module):
 
 
 class EmbNet(nn.Module):
-    def __init__(self, V, d, pad, o):
+    def __init__(self, V, d, pad, o, freq=False, ln_bias=True):
         super().__init__()
-        self.emb = nn.Embedding(V, d, padding_idx=pad)
-        self.ln = nn.LayerNorm(d)
+        self.emb = nn.Embedding(V, d, padding_idx=pad, scale_grad_by_freq=freq)
+        self.ln = nn.LayerNorm(d, bias=ln_bias)
         self.out = nn.Linear(d, o)
 
     def forward(self, x):
@@ -113,12 +113,12 @@ def build(c, g):
         shape = lambda B: (a['T'], B, a['d'])
     elif t in ('conv1', 'conv2', 'conv3'):
         nd = int(t[-1])
-        conv = {1: nn.Conv1d, 2: nn.Conv2d, 3: nn.Conv3d}[nd](a['cin'], a['cout'], a['k'], stride=a['stride'], padding=a['pad'], dilation=a['dil'], groups=a['groups'], bias=a['bias'])
+        conv = {1: nn.Conv1d, 2: nn.Conv2d, 3: nn.Conv3d}[nd](a['cin'], a['cout'], a['k'], stride=a['stride'], padding=a['pad'], dilation=a['dil'], groups=a['groups'], bias=a['bias'], padding_mode=a.get('pmode', 'zeros'))
         norm = {'gn': nn.GroupNorm(a['gn_groups'], a['cout']), 'in': {1: nn.InstanceNorm1d, 2: nn.InstanceNorm2d, 3: nn.InstanceNorm3d}[nd](a['cout'], affine=True), 'none': nn.Identity()}[a['norm']]
         m = nn.Sequential(conv, norm, nn.Tanh(), nn.AdaptiveAvgPool1d(1) if nd == 1 else (nn.AdaptiveAvgPool2d(1) if nd == 2 else nn.AdaptiveAvgPool3d(1)), nn.Flatten(), nn.Linear(a['cout'], a['o']))
         shape = lambda B: (B, a['cin']) + tuple([a['size']] * nd)
     elif t == 'emb':
-        m = EmbNet(a['V'], a['d'], a['pad'], a['o'])
+        m = EmbNet(a['V'], a['d'], a['pad'], a['o'], a.get('freq', False), a.get('ln_bias', True))
         shape = None
     elif t == 'bag':
         m = BagNet(a['V'], a['d'], a['o'], a['mode'], a.get('pad'))
@@ -274,7 +274,10 @@ def run_case(c):
                 if d > tol:
                     out['fails'].append(['per-sample', 'grad_sample[%d] of %s differs from the gradient of sample %d alone by %.3g' % (i, n, i, d)])
                     break
-            if B > 0 and p.grad is not None:
+            # scale_grad_by_freq divides by the usage counts of the whole mini-batch in the unwrapped model: there the batch gradient is not
+            # the sum of the per-sample gradients of the model itself, so the sum clause has no meaning for that parameter
+            batch_coupled_grad = c['a'].get('freq') and n.endswith('emb.weight')
+            if B > 0 and p.grad is not None and not batch_coupled_grad:
                 scale = B if c['red'] == 'mean' else 1
                 d = float((gs.sum(0) - p.grad * scale).abs().max())
                 if d > 1e-7 * (1 + float(p.grad.abs().max()) * scale):
